@@ -1155,3 +1155,15 @@ package kafka
 //@   ensures len(msgs) == 0 ==> size == 0
 //@   ensures len(msgs) > 0 ==> size == messageSetSize(msgs[:len(msgs)-1]) + 34 + int32(len(msgs[len(msgs)-1].Key)) + int32(len(msgs[len(msgs)-1].Value))
 //@   loop 0 invariant -1 <= rangeindex && rangeindex < len(msgs) && size == messageSetSize(msgs[:rangeindex+1])
+
+//@ func compressMessageSet
+//@   trusted compresses the message set into a pooled buffer; the size it reports is the size of the one wrapper message carrying the compressed bytes
+//@   ensures err == nil ==> compressed != nil && size == 34 + int32(compressed.Len()) && compressed.Len() <= 0x100000
+//@ func (*writeBuffer).writeProduceRequestV2
+//@   requires len(clientID) <= 0x7fff && len(topic) <= 0x7fff && len(msgs) <= 1000
+//@   requires forall k :: 0 <= k && k < len(msgs) ==> len(msgs[k].Key) <= 0x100000 && len(msgs[k].Value) <= 0x100000
+//@   option noframe
+//@   modifies heap
+//@   callsite (*writeBuffer).Flush requires wb.$wn == old(wb.$wn) + 4 + int(h.Size)
+//@   loop 0 invariant -1 <= rangeindex && rangeindex < len(msgs) && cw != nil && len(msgs) <= 1000 && size == messageSetSize(msgs) && wb.$wn == old(wb.$wn) + 4 + int(h.Size) - int(size) + int(messageSetSize(msgs[:rangeindex+1]))
+//@   loop 0 invariant forall k :: 0 <= k && k < len(msgs) ==> len(msgs[k].Key) <= 0x100000 && len(msgs[k].Value) <= 0x100000
